@@ -71,7 +71,7 @@ def run(res, tier, seed):
     res.rule = RULE
     n_models = 350 if tier == "quick" else 4000
     per = 2 if tier == "quick" else 3
-    models = gen_valid(rng, n_models, res, constvar=0.12)
+    models = gen_valid(rng, n_models, res, constvar=0.12, wide=0.03)
     cases = []
     for ast, m in models:
         res.count("depth_%d" % depth_of(m))
